@@ -6,36 +6,48 @@
 (* records the projection of the built value and of the decoded value (same  *)
 (* oracle-free projector), the decoder's verdict, the size the decoded value *)
 (* reports and its re-encoding.                                              *)
-EXTENDS Integers, Sequences, FiniteSets, TLC, Json
+EXTENDS OFWire
 CONSTANT TraceFile
 Trace == ndJsonDeserialize(TraceFile)
 VARIABLES l, done
 vars == <<l, done>>
-Has(r, f) == f \in DOMAIN r
 Res(e) == IF Has(e.obs, "results") THEN e.obs.results ELSE <<>>
+SpecKinds == MsgKinds \cup ActionKinds \cup InstrKinds \cup PktKinds \cup {"Match", "MatchField", "Bucket"}
+HasTree(e, r) == Has(e, "trees") /\ r.obj \in DOMAIN e.trees
 Checks(e) ==
   LET rs == Res(e) IN
   IF Len(rs) # Len(e.rt) THEN << <<"the API calls completed without panicking", FALSE>> >>
   ELSE
   << <<"no panic while encoding, decoding or re-encoding", \A i \in DOMAIN rs : ~Has(rs[i], "panic")>>,
+     <<"encoding = the specified layout with the supplied values (every bit-field in its lane)",
+        \A i \in DOMAIN rs : (Has(rs[i], "bytes") /\ HasTree(e, rs[i])) => rs[i].bytes = Enc(e.trees[rs[i].obj])>>,
      <<"the decoder accepts the library's own encoding", \A i \in DOMAIN rs : Has(rs[i], "err") => (~rs[i].err /\ ~Has(rs[i], "nil"))>>,
      <<"decoding yields a value of the same kind", \A i \in DOMAIN rs : Has(rs[i], "dectype") => rs[i].dectype = rs[i].origtype>>,
      <<"decoded value has the same observable field values", \A i \in DOMAIN rs : Has(rs[i], "dec") => rs[i].dec = rs[i].orig>>,
      <<"re-encoding the decoded value reproduces the original bytes", \A i \in DOMAIN rs : Has(rs[i], "reenc") => rs[i].reenc = rs[i].bytes>>,
+     <<"the decoded value, read field by field by the specification's encoder, gives the original bytes",
+        \A i \in DOMAIN rs : (Has(rs[i], "dec") /\ Has(rs[i].dec, "T") /\ rs[i].dec.T \in SpecKinds) => Enc(rs[i].dec) = rs[i].bytes>>,
+     <<"the payload decoder is chosen by ethertype / protocol / next-header chain",
+        \A i \in DOMAIN rs : (Has(rs[i], "dec") /\ Has(rs[i].dec, "T") /\ rs[i].dec.T \in {"Ethernet", "IPv4", "IPv6"}) => rs[i].dec.Data.T = Demux(rs[i].dec)>>,
      <<"the decoded value accounts for exactly its own bytes (siblings follow)", \A i \in DOMAIN rs : Has(rs[i], "declen") => rs[i].declen = Len(rs[i].bytes)>> >>
 Failed(e) == LET cs == Checks(e) IN {i \in DOMAIN cs : ~cs[i][2]}
 FirstBad(e, k) == LET rs == Res(e)
-                      S == {i \in DOMAIN rs : CASE k = 1 -> Has(rs[i], "panic") [] k = 2 -> Has(rs[i], "err") /\ (rs[i].err \/ Has(rs[i], "nil"))
-                                                 [] k = 3 -> Has(rs[i], "dectype") /\ rs[i].dectype # rs[i].origtype
-                                                 [] k = 4 -> Has(rs[i], "dec") /\ rs[i].dec # rs[i].orig
-                                                 [] k = 5 -> Has(rs[i], "reenc") /\ rs[i].reenc # rs[i].bytes
-                                                 [] k = 6 -> Has(rs[i], "declen") /\ rs[i].declen # Len(rs[i].bytes)
+                      S == {i \in DOMAIN rs : CASE k = 1 -> Has(rs[i], "panic")
+                                                 [] k = 2 -> Has(rs[i], "bytes") /\ HasTree(e, rs[i]) /\ rs[i].bytes # Enc(e.trees[rs[i].obj])
+                                                 [] k = 3 -> Has(rs[i], "err") /\ (rs[i].err \/ Has(rs[i], "nil"))
+                                                 [] k = 4 -> Has(rs[i], "dectype") /\ rs[i].dectype # rs[i].origtype
+                                                 [] k = 5 -> Has(rs[i], "dec") /\ rs[i].dec # rs[i].orig
+                                                 [] k = 6 -> Has(rs[i], "reenc") /\ rs[i].reenc # rs[i].bytes
+                                                 [] k = 7 -> Has(rs[i], "dec") /\ Has(rs[i].dec, "T") /\ rs[i].dec.T \in SpecKinds /\ Enc(rs[i].dec) # rs[i].bytes
+                                                 [] k = 8 -> Has(rs[i], "dec") /\ Has(rs[i].dec, "T") /\ rs[i].dec.T \in {"Ethernet", "IPv4", "IPv6"} /\ rs[i].dec.Data.T # Demux(rs[i].dec)
+                                                 [] k = 9 -> Has(rs[i], "declen") /\ rs[i].declen # Len(rs[i].bytes)
                                                  [] OTHER -> FALSE} IN
                   IF S = {} THEN [none |-> TRUE]
                   ELSE LET i == CHOOSE j \in S : \A m \in S : j <= m IN
                        [obj |-> rs[i].obj, type |-> (IF Has(rs[i], "origtype") THEN rs[i].origtype ELSE "?"),
                         via |-> (IF Has(rs[i], "via") THEN rs[i].via ELSE "?"),
                         panic |-> (IF Has(rs[i], "panic") THEN rs[i].panic ELSE ""),
+                        expected |-> (IF k = 2 THEN Enc(e.trees[rs[i].obj]) ELSE <<>>), observed |-> (IF k = 2 THEN rs[i].bytes ELSE <<>>),
                         where |-> (IF Has(rs[i], "where") THEN rs[i].where ELSE "")]
 Init == l \in 1..Len(Trace) /\ done = FALSE
 Judge == /\ ~done /\ done' = TRUE /\ UNCHANGED l
